@@ -72,8 +72,25 @@ def gen_enum_v0(d, expanded, H):
         else:
             vtxt.append('    %s(%s),' % (v['name'], ', '.join(f['ty'] for f in v['fields'])))
     out.append('pub enum %s {\n%s\n}\n' % (X, '\n'.join(vtxt)))
-    out.append(H['gen_metadata'](static, H['metadata_steps'](expanded, static)))
-    lits = set()
+    top = H['metadata_steps'](expanded, static)
+    out.append(H['gen_metadata'](static, top))
+    lits = set(n for _, n in top if n)
+    K = len(top)
+    if K > 1:
+        # the enum itself has evolution steps: a chunked record whose chunk 0 holds the index and the case
+        import catgen_evolved
+        topcore = catgen_evolved.Core([], top, lambda f: f['name'], H['strlit'])
+
+    def top_terms(idx, ok, enc, tn, t0):
+        """(ser_ok, enc, tbl_after) of the whole enum record for one case"""
+        if K == 1:
+            return ok, 'seq![0u8] + (leb(%d) + (%s))' % (idx, enc), tn
+        chunks = ['leb(%d) + (%s)' % (idx, enc)] + ['Seq::<u8>::empty()'] * (K - 1)
+        hdr = 'enc_hdr(seq![%s], seq_lens(seq![%s]), Map::<Seq<char>, FieldPosition>::empty(), %s, %s, %d)' % (
+            topcore.evos, ', '.join(chunks), topcore.removed, tn, K)
+        return ('(%s) && (%s) is Some' % (ok, hdr),
+                '(match %s { Some((hb, t2)) => seq![%du8] + (hb + concat_chunks(seq![%s], %d)), None => Seq::<u8>::empty() })' % (hdr, K - 1, ', '.join(chunks), K),
+                '(match %s { Some((hb, t2)) => t2, None => %s })' % (hdr, t0))
     for v in d['variants']:
         # per-case metadata static, where the expansion has one (a case that gets none and still
         # names it fails to resolve in Verus; a case that needs none is verified without it)
@@ -87,7 +104,24 @@ def gen_enum_v0(d, expanded, H):
     n = len(d['variants'])
     live = H['live']
 
+    cores = {}
+    for v in d['variants']:
+        if v.get('evolution') and not v['transient']:
+            import catgen_evolved
+            cs = ('%s_%s_metadata' % (X, v['name'])).upper()
+            cores[v['name']] = catgen_evolved.Core(live(v['fields']), H['metadata_steps'](expanded, cs), lambda f: f['name'], H['strlit'])
+            lits.update(n for _, n in cores[v['name']].steps if n)
+
     def case_terms(v, t0):
+        if v['name'] in cores:
+            # a case with evolution steps: version byte, header, chunks (like a struct with steps)
+            c = cores[v['name']]
+            hdr = c.header(t0)
+            ok = '(%s) && (%s) is Some' % (c.ok(t0), hdr)
+            enc = '(match %s { Some((hb, t2)) => seq![%du8] + (hb + concat_chunks(seq![%s], %d)), None => Seq::<u8>::empty() })' % (
+                hdr, c.V, ', '.join(c.chunks(t0)), c.k)
+            tn = '(match %s { Some((hb, t2)) => t2, None => %s })' % (hdr, t0)
+            return ok, enc, tn, c.vwf
         lf = live(v['fields'])
         ts = [t0]
         for f in lf:
@@ -106,9 +140,10 @@ def gen_enum_v0(d, expanded, H):
             arms_vwf.append('%s => true' % pat)
         else:
             ok, enc, tn, vwf = case_terms(v, 't')
-            arms_ok.append('%s => %s' % (pat, ok))
             # version byte of the enum record, constructor index (unsigned varint), the case's own record
-            arms_enc.append('%s => seq![0u8] + (leb(%d) + (%s))' % (pat, v['idx'], enc))
+            ok, enc, tn = top_terms(v['idx'], ok, enc, tn, 't')
+            arms_ok.append('%s => %s' % (pat, ok))
+            arms_enc.append('%s => %s' % (pat, enc))
             arms_tbl.append('%s => %s' % (pat, tn))
             arms_vwf.append('%s => %s' % (pat, vwf))
         arms_idx.append('%s => %dint' % (wild_of(X, v), v['idx']))
@@ -139,7 +174,37 @@ def gen_enum_v0(d, expanded, H):
                '{') % (vwf, ok, enc, tn)
         seg = b[mm.start():mm.end()]
         seg2 = re.sub(r'\|context\|(\s*)\{$', lambda m2: ann, seg)
-        b = b[:mm.start()] + seg2 + b[mm.end():]
+        tail = b[mm.end():]
+        if v['name'] in cores:
+            import catgen_evolved
+            ob = mm.end() - 1
+            cb = rx.match_close(b, ob)
+            body = catgen_evolved.annotate_writer(b[ob:cb + 1], '%s::%s' % (X, v['name']), cores[v['name']], 'old(context)',
+                                                  re.compile(r'\n(\s*)let mut serializer =\s*AdtSerializer::new\([^;]*;\n'))
+            tail = body[1:] + b[cb + 1:]
+        b = b[:mm.start()] + seg2 + tail
+        if K > 1:
+            # after this arm's write_constructor(..)?; -- chunk 0 is index + case, the stream only had its tables changed
+            ob = b.index('{', mm.start() + len(seg2) - 1)
+            cb = rx.match_close(b, ob)
+            stmt_end = b.index(';', cb) + 1
+            chunks = ['leb(%d) + (%s)' % (v['idx'], enc)] + ['Seq::<u8>::empty()'] * (K - 1)
+            hint = '''
+                proof {
+                    assert(serializer.chunk(0) =~= %(c0)s);
+%(rest)s                    lemma_swrote_intro(s0.ctx(), serializer.ctx(), Seq::<u8>::empty(), %(tn)s);
+                    lemma_swrote_trans(old(context), s0.ctx(), serializer.ctx(), seq![%(V)du8], Seq::<u8>::empty(), old(context).state.strs(), %(tn)s);
+                    assert(seq![%(V)du8] + Seq::<u8>::empty() =~= seq![%(V)du8]);
+                    assert(buf_seqs(serializer.buffers@) =~= seq![%(chunks)s]);
+                    assert(seq_lens(buf_seqs(serializer.buffers@)) =~= seq_lens(seq![%(chunks)s]));
+                }''' % dict(c0=chunks[0], tn=tn, V=K - 1, chunks=', '.join(chunks), rest=''.join('                    assert(serializer.buffers@[%d] == s0.buffers@[%d] && s0.chunk(%d) =~= Seq::<u8>::empty());\n' % (j, j, j) for j in range(1, K)))
+            b = b[:stmt_end] + hint + b[stmt_end:]
+    if K > 1:
+        m0 = re.search(r'\n(\s*)let mut serializer =\s*AdtSerializer::new\([^;]*;\n', b)
+        if not m0:
+            raise rx.Lost('serialize of %s: statement creating the serializer not found' % X)
+        b = b[:m0.end()] + '        let ghost s0 = serializer;\n' + b[m0.end():]
+        b = b.replace('{', '{\n        broadcast use {lemma_swrote_all_b};', 1)
     b = b.replace('{', '{\n        broadcast use {lemma_wf_v0_b, lemma_swrote_trans_b, lemma_swrote_facts_b, lemma_swrote_wrote_b};\n        proof { reveal_strlits(); }', 1)
     out.append(SER_TMPL % dict(X=X, idx=', '.join(arms_idx), ok=', '.join(arms_ok), enc=', '.join(arms_enc),
                                tbl=', '.join(arms_tbl), vwf=', '.join(arms_vwf), body=b))
@@ -153,7 +218,10 @@ def gen_enum_v0(d, expanded, H):
              '        cr is Ok ==> final(context).frame_eq(&*old(context)) && final(context).current.pos >= old(context).current.pos,\n{')
     db = re.sub(r'(deserializer\.read_constructor\(\d+usize as u32,\s*)\|_\|(\s*)\{', lambda m: m.group(1) + ann_t, db)
     db = re.sub(r'(deserializer\.read_constructor\(\d+usize as u32,\s*)\|context\|(\s*)\{', lambda m: m.group(1) + ann_c, db)
-    db = db.replace('{', '{\n        broadcast use {lemma_rf_tuple, lemma_rof_tuple};\n        proof { reveal_strlits(); }', 1)
+    # cases with evolution steps: fields may come from several chunks or from defaults -- the
+    # general (totality) summaries of read_field / read_optional_field
+    rl = 'lemma_rf_any, lemma_rof_any' if cores else 'lemma_rf_tuple, lemma_rof_tuple'
+    db = db.replace('{', '{\n        broadcast use {%s};\n        proof { reveal_strlits(); }' % rl, 1)
     trans_idx = [v['idx'] for v in d['variants'] if v['transient']]
     bad = ' || '.join(['i >= %d' % n] + ['i == %d' % t for t in trans_idx])
     out.append(DE_TMPL % dict(X=X, bad=bad, body=db))
